@@ -171,7 +171,7 @@ func (c *converter) ProgramEnd() error {
 			`set "_i=0"`,
 			c.callFuncString(sliceLenGetHelper, []string{}, "%2"),
 			":_sch_loop",
-			`if "!_i!" lss "!_len!" (`,
+			`if !_i! lss !_len! (`, // Compare numerically (quoted operands are compared as strings).
 			`for /f "delims=" %%i in ("%2_!_i!") do set "_v=!%%i!"`,
 			c.sliceAssignmentString("!%1!", "!_i!", "!_v!", false),
 			`set /A "_i=!_i!+1"`,
